@@ -172,7 +172,25 @@ struct GenScript {
 fn gen_script(rng: &mut Rng, id: String) -> GenScript {
     let sleep = *rng.pick(&[0u64, 0, 137, 333]);
     let body = rng.rbytes(200);
-    let extra = if rng.chance(1, 4) { Some(("k", "v")) } else { None };
+    // well-formed requests with hostile header values: a `timeout` that does not parse as u64 counts as
+    // absent, an astronomically large one never fires - neither may disturb the serving side
+    const HOSTILE_TIMEOUTS: [&str; 10] = [
+        "18446744073709551616",
+        "18446744073709551615",
+        "9223372036854775807000000000",
+        "340282366920938463463374607431768211455",
+        "340282366920938463463374607431768211456",
+        "99999999999999999999999999999999999999999999",
+        "-1",
+        "1e9",
+        "",
+        " 5",
+    ];
+    let extra = match rng.below(8) {
+        0 | 1 => Some(("k", "v")),
+        2 | 3 => Some(("timeout", *rng.pick(&HOSTILE_TIMEOUTS))),
+        _ => None,
+    };
     let full = request_bytes(&id, sleep, &body, extra);
     let mut ops;
     let mut racy = false;
@@ -218,7 +236,21 @@ fn gen_script(rng: &mut Rng, id: String) -> GenScript {
             kind = "garbage";
             let g = match rng.below(3) {
                 0 => rng.rbytes(100),
-                1 => wire::mutate(rng, &full),
+                1 => {
+                    // a mutation that leaves a valid request under ANOTHER request id would be counted under the
+                    // wrong id by the invocation log: keep the id bytes intact
+                    let mut m = wire::mutate(rng, &full);
+                    let idb = id.as_bytes();
+                    let mut tries = 0;
+                    while !m.windows(idb.len()).any(|w| w == idb) && tries < 8 {
+                        m = wire::mutate(rng, &full);
+                        tries += 1;
+                    }
+                    if !m.windows(idb.len()).any(|w| w == idb) {
+                        m = rng.rbytes(100);
+                    }
+                    m
+                }
                 _ => {
                     let mut v = full.clone();
                     if v.len() > 12 {
@@ -326,6 +358,9 @@ fn session(run: &mut Run, rng: &mut Rng, idx: u64, nscripts: usize) -> anyhow::R
             };
             let lc = s.svc.log.lock().unwrap().lifecycle.get(&sc.id).copied();
             let (invoked, handler) = lifecycle_str(lc);
+            if std::env::var("VERIF_DEBUG").is_ok() {
+                eprintln!("session {idx} script {i} kind {} noise {} id {} -> invoked={invoked} handler={handler} client={client} t={:?}", sc.kind, noise[i], sc.id, fabric.now());
+            }
             // honest traffic: another peer, and a well-formed request on the hostile peer's own connection
             let hr = tokio::time::timeout(Duration::from_secs(10), h.net.rpc(hp, Request::new(Bytes::from_static(b"honest")).with_header("x-id", format!("h{idx}-{i}")))).await;
             let honest_ok = matches!(&hr, Ok(Ok(r)) if r.body().as_ref() == &expected_response_body(&format!("h{idx}-{i}"), b"honest")[..]);
@@ -494,6 +529,10 @@ fn concurrent_scenario(run: &mut Run, rng: &mut Rng, sc: u64) -> anyhow::Result<
             resp_len: if callee_limit.is_some() && lrng.chance(1, 3) { Some(60_000 + lrng.below(1000) as usize) } else { None },
         });
     }
+    // some scenarios: the pair is dialled again while calls are in flight: the new connection replaces the
+    // old one, whose calls fail - and must not be delivered a second time over the new one
+    let redial: Option<(u64, bool)> = if lrng.chance(1, 4) && faults.loss_permille <= 50 { Some((1 + lrng.below(300), lrng.chance(1, 2))) } else { None };
+    run.count("redial-mid-flight", if redial.is_some() { "yes" } else { "no" });
     let rt = paused_rt();
     let calls2 = calls.clone();
     let f2 = faults.clone();
@@ -509,6 +548,13 @@ fn concurrent_scenario(run: &mut Run, rng: &mut Rng, sc: u64) -> anyhow::Result<
         // the listener registers the dialer only after the dialer has consumed its ack
         tokio::time::sleep(Duration::from_millis(100)).await;
         fabric.set_faults(f2);
+        if let Some((after, by_a)) = redial {
+            let (net, addr) = if by_a { (a.net.clone(), b.addr) } else { (b.net.clone(), a.addr) };
+            tokio::spawn(async move {
+                tokio::time::sleep(Duration::from_millis(after)).await;
+                let _ = net.connect(addr).await;
+            });
+        }
         let mut js = vec![];
         for c in calls2.into_iter() {
             let (net, peer) = if c.from_a { (a.net.clone(), pb) } else { (b.net.clone(), pa) };
@@ -720,6 +766,7 @@ fn abandon_history(run: &mut Run, rng: &mut Rng, hidx: u64) -> anyhow::Result<()
     let mut lrng = rng.fork(hidx);
     let limit = *lrng.pick(&[1u64, 4, 100]);
     let nabandon = if run.quick() { 150 + lrng.below(250) } else { 500 + lrng.below(4500) };
+    let inflight_pick = lrng.below(6);
     let rt = paused_rt();
     let res: anyhow::Result<(Vec<serde_json::Value>, BTreeMap<String, u64>)> = rt.block_on(async move {
         let fabric = Fabric::new(seed);
@@ -728,10 +775,17 @@ fn abandon_history(run: &mut Run, rng: &mut Rng, hidx: u64) -> anyhow::Result<()
         q.max_concurrent_bidi_streams = Some(limit);
         cb.quic = Some(q);
         let a = start_node(&fabric, seed, 1, config_idle(600_000))?;
-        let b = start_node(&fabric, seed, 2, cb)?;
+        // in a third of the histories the callee's service sits behind the per-peer in-flight limit of
+        // anemo-tower: abandoned calls must give their permit back
+        let inflight: Option<(usize, bool)> = if inflight_pick == 0 { Some((2, false)) } else if inflight_pick == 1 { Some((2, true)) } else { None };
+        let b = match inflight {
+            Some((m, block)) => start_node_inflight(&fabric, seed, 2, cb, m, block)?,
+            None => start_node(&fabric, seed, 2, cb)?,
+        };
         let pb = a.net.connect(b.addr).await?;
         let mut problems = vec![];
         let mut stats: BTreeMap<String, u64> = BTreeMap::new();
+        *stats.entry(format!("callee-inflight-limit:{inflight:?}")).or_default() += 1;
         // a sibling call that is NOT abandoned stays in flight over a stretch of abandons (when the limit allows)
         for i in 0..nabandon {
             let id = format!("ab{hidx}-{i}");
@@ -741,6 +795,15 @@ fn abandon_history(run: &mut Run, rng: &mut Rng, hidx: u64) -> anyhow::Result<()
             let mut req = Request::new(Bytes::from(body)).with_header("x-id", id.clone());
             if sleep > 0 {
                 req.headers_mut().insert("x-sleep-ms".into(), sleep.to_string());
+            }
+            // some answers are large, so that the call can be abandoned after the handler returned while the
+            // response is still being transmitted
+            if lrng.chance(1, 10) {
+                req.headers_mut().insert("x-resp-len".into(), (1_000_000 + lrng.below(5_000_000)).to_string());
+            }
+            // a (long) deadline of its own does not exempt a call from being cancelled when it is abandoned
+            if lrng.chance(1, 4) {
+                req = req.with_timeout(Duration::from_secs(120 + lrng.below(600)));
             }
             // abandon at a random instant of the call's life: by dropping the future ...
             let when = *lrng.pick(&[0u64, 0, 1, 3, 10, 40, 200, 700]);
@@ -757,6 +820,10 @@ fn abandon_history(run: &mut Run, rng: &mut Rng, hidx: u64) -> anyhow::Result<()
                 *stats.entry("abandon-by-drop".into()).or_default() += 1;
             }
             if i % 25 == 24 {
+                if inflight.is_some() {
+                    // let the callee learn of the last abandon (its permit is handed back when the handler is dropped)
+                    tokio::time::sleep(Duration::from_millis(200)).await;
+                }
                 // a live call in between must work (capacity not exhausted), and quickly
                 let live = tokio::time::timeout(Duration::from_secs(20), a.net.rpc(pb, Request::new(Bytes::from_static(b"live")).with_header("x-id", format!("live{hidx}-{i}")))).await;
                 *stats.entry("live-calls".into()).or_default() += 1;
